@@ -78,7 +78,9 @@ type Tree struct {
 	// identity mode: nodes whose last element has one of these names have the empty string as value
 	EmptyNames map[string]bool
 	// identity mode: nodes whose last element has one of these names have this number as value
-	NumNames   map[string]float64
+	NumNames map[string]float64
+	// identity mode: nodes whose last element has one of these names are leaf-lists with these values
+	ListNames  map[string][]string
 	Calls      []Call
 	FailAt     map[int]bool // 1-based callback indices that fail
 	NCalls     int
@@ -177,6 +179,13 @@ func (e *Entry) GetValue() (xpath.Datum, error) {
 	if len(e.path) > 0 {
 		if v, ok := e.t.NumNames[e.path[len(e.path)-1].Name]; ok {
 			return xpath.NewNumDatum(v), nil
+		}
+		if vs, ok := e.t.ListNames[e.path[len(e.path)-1].Name]; ok {
+			var ds []xpath.Datum
+			for _, v := range vs {
+				ds = append(ds, xpath.NewLiteralDatum(v))
+			}
+			return xpath.NewDatumSliceDatum(ds), nil
 		}
 	}
 	return xpath.NewLiteralDatum(e.Identity()), nil
